@@ -274,6 +274,8 @@ def global_rules_struct(item):
         if m:
             derives += [d.strip() for d in m.group(1).split(",")]
     keep = [d for d in derives if d in ("Clone", "Copy", "PartialEq", "Eq")]
+    if "Copy" not in keep and "Clone" in keep:
+        keep.remove("Clone")      # derived Clone of a non-Copy struct: replaced by an assumed clone contract where needed
     dropped = [d for d in derives if d not in keep]
     hit("R0.derives-dropped:" + ",".join(sorted(dropped)), 1 if dropped else 0)
     if "PartialEq" in keep and "Eq" in keep:
@@ -293,6 +295,26 @@ def nth_call(body, callee, n):
 
 
 def stmt_end_after(bl, pos):
+    """End of the statement containing bl[pos]: after its `;`, or after the closing `}` of a block statement
+    (`if`/`if let`/`while`/`for`/`loop`/`match` ... with its `else` chain)."""
+    st = stmt_start_before(bl, pos)
+    m = re.match(r"\s*(if|while|for|loop|match)\b", bl[st:])
+    if m:
+        j = st + m.end()
+        while True:
+            d = 0
+            while j < len(bl):
+                c = bl[j]
+                if c in "([": d += 1
+                elif c in ")]": d -= 1
+                elif c == "{" and d == 0: break
+                j += 1
+            if j >= len(bl): raise LostAnchor("anchor: block statement without body")
+            j = match_brace(bl, j) + 1
+            m2 = re.match(r"\s*else\b", bl[j:])
+            if not m2:
+                return j
+            j += m2.end()
     d = 0
     for j in range(pos, len(bl)):
         c = bl[j]
@@ -393,6 +415,10 @@ def expand_template(repo, tmpl_text):
     i = 0
     while i < len(lines):
         m = DIRECTIVE.match(lines[i])
+        if m and m.group(1) == "INCLUDE":
+            inc = open(os.path.join(os.path.dirname(os.path.dirname(os.path.abspath(__file__))), m.group(2).strip())).read()
+            lines[i:i + 1] = inc.split("\n")
+            continue
         if not m or m.group(1) != "EXTRACT":
             if m and m.group(1) not in ("EXTRACT",):
                 raise LostAnchor(f"template line {i + 1}: stray directive {lines[i].strip()}")
